@@ -165,12 +165,22 @@ def _run_main6(ctx):
         A.include(ctx, r, 'c18', 'R18.4')
         A.include(ctx, r, 'c18', 'R18.3')
 
-    with ctx.rule('R10.7', "a channel's wake-ups are its own: the I/O loop's special tokens lie outside Token(0..=u16::MAX) and are pairwise distinct", floor=2) as r:
+    with ctx.rule('R10.7', "a channel's wake-ups are its own: the I/O loop's special tokens lie outside Token(0..=u16::MAX) and are pairwise distinct", floor=3) as r:
         ok, why, vals = panics.token_values(ctx)
         r.check('special-tokens-disjoint-from-channel-ids', ok, ctx.site('io_loop::IoLoop::handle_steady_event'), built=why, expected='STREAM, HEARTBEAT, ALLOC_CHANNEL, SET_BLOCKED_TX > 65535',
                 why='a channel is registered under Token(id as usize); a special token inside 0..=65535 makes that id unusable (its wake-ups are dispatched elsewhere, open_channel hangs)')
         ok2, why2 = panics.token_domain(ctx)
         r.check('token-dispatch-total', ok2, ctx.site('io_loop::IoLoop::handle_steady_event'), built=why2)
+        # ... and every event source is registered under the token whose dispatch arm reads that source
+        def tok(t):
+            return t if not t.startswith('mio::Token(') or t == 'mio::Token(0)' else 'mio::Token(<channel id>)'
+        pairs = sorted(set(((x[3].get('gargs') or ['?'])[0], tok(x[2])) for x in panics.registrations(ctx) if x[1] in ('register', 'reregister')))
+        RX = 'mio_extras::channel::Receiver<'
+        want_pairs = sorted([(RX + 'std::option::Option<u16>>', 'io_loop::ALLOC_CHANNEL'), (RX + 'io_loop::IoLoopMessage>', 'mio::Token(0)'), (RX + 'io_loop::IoLoopMessage>', 'mio::Token(<channel id>)'),
+                             (RX + 'crossbeam_channel::Sender<connection::ConnectionBlockedNotification>>', 'io_loop::SET_BLOCKED_TX'),
+                             ('mio_extras::timer::Timer<io_loop::heartbeat_timers::HeartbeatKind>', 'io_loop::HEARTBEAT'), ('S', 'io_loop::STREAM')])
+        r.eq('source-token-pairs', pairs, want_pairs, ctx.site('io_loop::IoLoop::thread_main'),
+             why="a source registered under another source's token wakes the wrong handler: its own messages are never read")
 
     def scope(p):
         return p.startswith(CSL) or p.startswith('io_loop::Inner::allocate_channel')
